@@ -257,7 +257,12 @@ pub fn explore(case : &Case, caps : &Caps, only : Option<(u32, Option<u32>, Opti
             let differs_post = disk.image() != inv.after.image();
             if differs_pre && differs_post
             {
-                s.distinct.insert(H64::new().str(&class).u64(is_build as u64).get());
+                // cell = (mutation kind, file class, origin, torn) x (victim kind, goal?) x what the prior history did
+                let prior : BTreeSet<&'static str> = case.ops[..victim].iter().map(|o| o.kind()).collect();
+                let mut h = H64::new();
+                h.str(&class).u64(is_build as u64).u64(goal.is_some() as u64);
+                for k in prior.iter() { h.str(k); }
+                s.distinct.insert(h.get());
                 s.inc("c11.crash_states_strictly_inside");
             }
             s.inc(&format!("c11.class.{}", class));
